@@ -154,7 +154,7 @@ template <class Q, class Arg> struct Runner {
             try { (static_cast<Q&>(*t).*set)(probes[0]); } catch (exception_base&) {}
             auto s1 = snapshot(*t);
             bool optionlike = false;
-            for (auto& kv : s0) if ((list_key(kv.first) || kv.first == "PDU.header_size") && s1[kv.first] != kv.second) optionlike = true;
+            for (auto& kv : s0) if ((list_key(kv.first) || (kv.first.size() > 12 && kv.first.compare(kv.first.size() - 12, 12, ".header_size") == 0)) && s1[kv.first] != kv.second) optionlike = true;
             if (optionlike) { R.count("fields_option_encoders_left_to_C04"); return; }
         }
         bool derived_field = always_derived(k) || protocol_tag(k);
